@@ -64,6 +64,16 @@ Definition recon (p : mat Q * option (mat Q)) : mat Q :=
   match snd p with Some L => matmul Qops L (fst p) | None => fst p end.
 Definition recon_close (a b : mat Q * option (mat Q)) : bool := qmat_close (recon a) (recon b).
 
+(* the operand in the form the harness used: a CPTensor object built by the validating constructor, or the plain tuple *)
+Definition mk_operand (is_class : bool) (w : option (list Z)) (fs : list (mat Z)) : res (cp_operand (F:=Z)) :=
+  if is_class then match cp_new Zops w fs with Ok o => Ok (CpObject o) | Err => Err end else Ok (CpTuple w fs).
+Definition res_eqb2 {A B} (eqb : A -> B -> bool) (a : res A) (b : res B) : bool :=
+  match a, b with Ok x, Ok y => eqb x y | Err, Err => true | _, _ => false end.
+(* result object vs (shape attribute, (weights, factors)) reported by the implementation: cached shape exactly, contents through cmp *)
+Definition obj_eqb (cmp : list Z * list (mat Z) -> list Z * list (mat Z) -> bool) (o : cp_obj (F:=Z))
+  (e : list nat * (list Z * list (mat Z))) : bool :=
+  nat_list_eqb (cpo_shape o) (fst e) && cmp (cpo_w o, cpo_fs o) (snd e).
+
 Inductive body :=
 | ZDense (w : list Z) (fs : list (mat Z)) (expected : tensor Z)
 | ZFlip (w : list Z) (fs : list (mat Z)) (mode : nat) (expected : res (list Z * list (mat Z)))
@@ -84,8 +94,8 @@ Inductive body :=
 | QCompress (slices : list (mat Q)) (thr : Q) (max_rank : option nat) (tapes : list (mat Q * list Q * mat Q))
             (full : list bool) (expected : list (mat Q * option (mat Q)))
 | ZModeDotApi (is_class copy : bool) (w : option (list Z)) (fs : list (mat Z)) (x : operand (F:=Z)) (mode : nat) (keep_dim : bool)
-              (expected : res (list Z * list (mat Z)))
-| ZFlipApi (is_class : bool) (w : option (list Z)) (fs : list (mat Z)) (mode : nat) (expected : res (list Z * list (mat Z)))
+              (expected : res (list nat * (list Z * list (mat Z))))       (* the result's .shape attribute, weights, factors *)
+| ZFlipApi (is_class : bool) (w : option (list Z)) (fs : list (mat Z)) (mode : nat) (expected : res (list nat * (list Z * list (mat Z))))
 | ZPermList (ps : list (list nat)) (ts : list (list Z * list (mat Z))) (expected : res (list (list Z * list (mat Z))))
 | ZTTMDense (cores : list (tensor Z)) (expected : tensor Z)
 | ZModeDotZ (w : list Z) (fs : list (mat Z)) (x : operand (F:=Z)) (mode : Z) (keep_dim : bool) (expected : res (list Z * list (mat Z)))
@@ -126,8 +136,10 @@ Definition agree_body (b : body) : bool :=
   | QCompress slices thr mr tapes full e =>
       svds_okb full slices tapes && list_eqb recon_close (svd_compress Qops slices thr mr tapes) e &&
       forallb (fun p => match snd p with Some L => orthob Qops (qclose ATOL RTOL) (ncols L) L | None => true end) e
-  | ZModeDotApi cl cp w fs x m kd e => res_eqb zcp_dense_eqb (cp_mode_dot_api Zops cl cp w fs x m kd) e
-  | ZFlipApi cl w fs m e => res_eqb zcp_eqb (cp_flip_sign_api Zops cl (col_sum Zops) w fs m) e
+  | ZModeDotApi cl cp w fs x m kd e =>
+      res_eqb2 (obj_eqb zcp_dense_eqb) (rbind (mk_operand cl w fs) (fun o => cp_mode_dot_api Zops o cp x m kd)) e
+  | ZFlipApi cl w fs m e =>
+      res_eqb2 (obj_eqb zcp_eqb) (rbind (mk_operand cl w fs) (fun o => cp_flip_sign_api Zops o (col_sum Zops) m)) e
   | ZPermList ps ts e => res_eqb (list_eqb zcp_eqb) (cp_permute_list Zops ps ts) e
   | ZTTMDense cores e => zt_eqb (ttm_to_tensor Zops cores) e
   | ZModeDotZ w fs x m kd e => res_eqb zcp_dense_eqb (cp_mode_dot_z Zops w fs x m kd) e
